@@ -193,8 +193,13 @@ class Ctx:
         if not lines:
             return []
         data = "\n".join(lines) + "\n"
+        if os.environ.get("VERIF_DUMP"):
+            open(os.environ["VERIF_DUMP"], "w").write(data)
+        def _limit():
+            import resource
+            resource.setrlimit(resource.RLIMIT_AS, (12 << 30, 12 << 30))     # a runaway model must fail, not eat the machine
         p = subprocess.run([DRV], input=data, stdout=subprocess.PIPE, stderr=subprocess.PIPE, text=True,
-                           timeout=3000)
+                           timeout=3000, preexec_fn=_limit)
         if p.returncode != 0:
             raise Infra("vncdrv exit %d: %s" % (p.returncode, p.stderr[-400:]))
         out = p.stdout.split("\n")
